@@ -27,7 +27,7 @@ import (
 // C06 The front end is total: any text is parsed or rejected, in finite time.
 
 const c06Rule = "inputs: token soup (lexemes, keywords, partial lexemes, quotes, backslashes, comment starts, NUL, non-ASCII and invalid UTF-8, huge literals), every-prefix cuts of printed valid programs, bracket/arrow/if/call nesting to depth 3000 in process; " +
-	"through the built binary: broken statements with a visible side effect before the error in all three run modes, and nesting bombs of 2*10^5 (quick) to 10^6 (thorough) levels; " +
+	"through the built binary: broken statements with a visible side effect before the error in all three run modes, and nesting bombs of 4*10^5 (quick) to 10^6 (thorough) levels; " +
 	"non-trivial = the input holds at least one of: string/comment open at the end, a literal of >= 19 digits, a byte >= 0x80 or NUL, nesting >= 50, or a parse error after >= 3 tokens; distinct by input text"
 
 var soupAlphabet = []string{"a", "b", "if", "else", "while", "for", "return", "yield", "true", "false", "1", "23", "4.5", "\"s\"", "\"", "\\", "\\\"", "\\n", ";", " ", " ", "\n", "\t", "(", ")", "{", "}", "[", "]", ",", ":", "+", "-", "*", "/", "=", "<", ">", "!", "&", "|", "#", "%", "~", "->", "<-", "==", ".", "é", "\xff", "@", "99999999999999999999", "x", "f(", "(a) ->", "\x00", "1.", "\r", "'", "9223372036854775807", "9223372036854775808", "$"}
@@ -452,7 +452,7 @@ func TestC06(t *testing.T) {
 		if tierScale() > 1 {
 			c06BinaryBombs(t, rec, []int{10000, 100000, 1000000})
 		} else {
-			c06BinaryBombs(t, rec, []int{200000})
+			c06BinaryBombs(t, rec, []int{400000})
 		}
 	}
 	rapid.Check(t, c06Prop(rec))
